@@ -17,7 +17,7 @@ import (
 )
 
 var Spec = engine.Spec{
-	ID: "C14", Run: Run, MapOrders: true, QuickBud: 5 * time.Minute, ThorBud: 20 * time.Minute,
+	ID: "C14", Run: Run, MapOrders: true, QuickBud: 5 * time.Minute, ThorBud: 45 * time.Minute,
 	Technique: "explicit enumeration of ordered node pairs (base, base + <=2 (thorough 3) reflection-generated single-field deviations, both directions) against a per-attribute count model and a reconstruction model",
 	Rule:      "case = (base, set of <=k deviations, direction); bases: empty, sparse, fully populated by reflection, fully populated with duplicated list elements; distinct state = base + deviation labels + direction",
 	Assume:    []string{"attributes compared as sets for list- and map-valued ones and to the second for dates; nested persons / external references identified by their full content"},
